@@ -229,6 +229,47 @@ func runAll(c *run.Ctx) {
 			Judge(k, domain, a, b)
 		})
 	}
+	// an areal operand strictly inside the other's shell that crosses one of its hole rings, with every choice
+	// of its start vertex (inside the hole, inside the solid part, on neither ring)
+	for i := 0; i < c.N(800, 12000); i++ {
+		c.Case("hole-cross", i, func(k *run.K) {
+			r := k.Rng
+			S := float64(r.Range(10, 14))
+			hx, hy := float64(r.Range(3, 4)), float64(r.Range(3, 4))
+			hw, hh := float64(r.Range(3, 5)), float64(r.Range(3, 5))
+			a := geom.NewPolygonXY([]float64{0, 0, S, 0, S, S, 0, S, 0, 0},
+				[]float64{hx, hy, hx + hw, hy, hx + hw, hy + hh, hx, hy + hh, hx, hy}).AsGeometry()
+			// b: a rectangle from inside the hole to the solid part on one side
+			bx0, by0 := hx+1, hy+1
+			bx1, by1 := hx+hw+float64(r.Range(1, 2)), hy+hh-1
+			if r.Bool() {
+				bx1, by1 = hx+hw-1, hy+hh+float64(r.Range(1, 2))
+			}
+			ring := [][2]float64{{bx0, by0}, {bx1, by0}, {bx1, by1}, {bx0, by1}}
+			st := r.Intn(4)
+			var fs []float64
+			for j := 0; j <= 4; j++ {
+				p := ring[(st+j)%4]
+				fs = append(fs, p[0], p[1])
+			}
+			b := geom.NewPolygonXY(fs).AsGeometry()
+			if r.Chance(1, 3) {
+				b = geom.NewMultiPolygon([]geom.Polygon{b.MustAsPolygon()}).AsGeometry()
+			}
+			if r.Chance(1, 3) {
+				a = geom.NewMultiPolygon([]geom.Polygon{a.MustAsPolygon()}).AsGeometry()
+			}
+			if !exact.ValidGeom(a).OK || !exact.ValidGeom(b).OK {
+				k.Skip("matrix")
+				return
+			}
+			k.In("domain", gen.DSmall)
+			k.In("a", shared.WKT(a))
+			k.In("b", shared.WKT(b))
+			Judge(k, gen.DSmall, a, b)
+			Judge(k, gen.DSmall, b, a)
+		})
+	}
 	for i := 0; i < c.N(4000, 60000); i++ {
 		c.Case("grid", i, func(k *run.K) {
 			domain := gen.DSmall
